@@ -4,6 +4,9 @@
 From Coq Require Import List NArith ZArith String.
 From SudachiVerif Require Generated.CategoryFacts Generated.OovFacts.
 From SudachiVerif Require Import Model.Oov Proofs.OovContinuity Proofs.OovCreated Proofs.OovMecab Proofs.OovFallback.
+From SudachiVerif Require Import Proofs.OovWf Proofs.OovMorpheme.
+From SudachiVerif Require Model.Lattice Model.BuildLattice Proofs.LatticeProofs Proofs.BuildLatticeProofs Proofs.BuildOptimal
+     Proofs.TotalitySimple Proofs.OovLattice.
 Import ListNotations.
 Open Scope N_scope.
 
@@ -13,6 +16,23 @@ Module CF := Generated.CategoryFacts.
 (* every source shape the fact translator looks at was recognised (otherwise the model runs on the values of the property
    statement and this obligation fails, naming the unrecognised shapes) *)
 Fact fact_all_shapes_recognised : OF.unrecognised = [].
+Proof. vm_compute. reflexivity. Qed.
+Fact fact_regex_ignores_empty_match : OF.regex_ignores_empty_match = true.
+Proof. vm_compute. reflexivity. Qed.
+(* WordId packs the dictionary into the bits above the 28-bit word part; 0xf is the OOV dictionary *)
+Fact fact_word_id_dic_shift : OF.word_id_dic_shift = 28.
+Proof. vm_compute. reflexivity. Qed.
+Fact fact_word_mask : OF.word_mask = N.ones 28.
+Proof. vm_compute. reflexivity. Qed.
+Fact fact_oov_dic_id : OF.oov_dic_id = 15.
+Proof. vm_compute. reflexivity. Qed.
+(* the word info of an OOV node: part of speech = word part of the word id, surface = slice of the analysed (normalised) text *)
+Fact fact_oov_info_fields : OF.oov_info_fields = [("pos_id", "word_id.word:u16"); ("surface", "curr_slice_c")]%string.
+Proof. vm_compute. reflexivity. Qed.
+Fact fact_form_fallbacks :
+  OF.form_fallbacks = [("normalized_form", "surface"); ("dictionary_form", "surface"); ("reading_form", "surface")]%string.
+Proof. vm_compute. reflexivity. Qed.
+Fact fact_oov_dictionary_id : OF.oov_dictionary_id = (-1)%Z.
 Proof. vm_compute. reflexivity. Qed.
 Fact fact_continuity_forward : OF.continuity_forward = true.
 Proof. vm_compute. reflexivity. Qed.
@@ -203,3 +223,94 @@ Print Assumptions C13_can_bow_eq_spec.
 Theorem C13_build_lattice_eq_spec : forall c ps dict, build_lattice c ps dict = build_lattice_spec c ps dict.
 Proof. exact (build_lattice_eq_spec_generic fact_gate_is_spec fact_fallback_is_last). Qed.
 Print Assumptions C13_build_lattice_eq_spec.
+
+(* ------------------------------------------------------------------ well-formed candidates; the lattice built from them *)
+(* every candidate that a provider model yields at character offset off of a text of length(cs) characters begins at off and
+   ends strictly after off and not after the end of the text (Regex: under the oracle hypothesis that a reported match ends
+   within the searched window; an empty match yields nothing) *)
+Theorem C13_candidates_wf :
+  forall p cs off other result ns,
+    provider_oracle_ok p (List.length cs) ->
+    provide p (mk_ctx cs) off other result = ROk ns ->
+    forall nd, In nd ns -> n_begin nd = off /\ (off < n_end nd <= List.length cs)%nat.
+Proof. exact (candidates_wf fact_continuity_forward fact_regex_ignores_empty_match). Qed.
+Print Assumptions C13_candidates_wf.
+
+(* the same for the whole node buffer of a position (well-formed dictionary candidates, every provider in order, fallback) *)
+Theorem C13_position_candidates_wf :
+  forall cs ps off dict buf,
+    (forall p, In p ps -> provider_oracle_ok p (List.length cs)) ->
+    Forall (cand_wf (List.length cs) off) dict ->
+    position_step (mk_ctx cs) ps off dict = ROk buf -> Forall (cand_wf (List.length cs) off) buf.
+Proof.
+  exact (fun cs ps off dict buf H1 H2 H3 =>
+           position_step_wf fact_continuity_forward fact_regex_ignores_empty_match OF.oov_gate_mask (fallback_of ps) cs ps off
+                            dict buf H1 (fun p Hp => H1 p (fallback_of_in ps p Hp)) H2 H3).
+Qed.
+Print Assumptions C13_position_candidates_wf.
+
+Module L := Model.Lattice.
+Module BL := Model.BuildLattice.
+Module BO := Proofs.BuildOptimal.
+Module OL := Proofs.OovLattice.
+
+(* converted to lattice nodes, what the provider model offers at a position is well formed: the hypothesis offered_wf of
+   C02_build_optimal / cands_wf of C03_fallback_total, discharged for dictionary candidates assumed well formed + OOV providers *)
+Theorem C13_oov_offered_wf :
+  forall cs ps (dict : nat -> list node),
+    (forall p m, In m (dict p) -> cand_wf (List.length cs) p m) ->
+    (forall q, In q ps -> provider_oracle_ok q (List.length cs)) ->
+    forall p m, In m (OL.oov_offered cs ps dict p) -> Proofs.BuildLatticeProofs.node_wf (List.length cs) p m.
+Proof. exact (OL.oov_offered_wf fact_continuity_forward fact_regex_ignores_empty_match). Qed.
+Print Assumptions C13_oov_offered_wf.
+
+(* C02 instantiated: the lattice built from the dictionary candidates and the provider model (position_step at every position
+   that something reaches) attains the minimum cost over all chains of offered candidates covering the text *)
+Theorem C13_build_optimal_oov :
+  forall cs ps (dict : nat -> list node),
+    (forall p m, In m (dict p) -> cand_wf (List.length cs) p m) ->
+    (forall q, In q ps -> provider_oracle_ok q (List.length cs)) ->
+    forall (conn : N -> N -> Z) Lt r i c,
+      (0 < List.length cs)%nat ->
+      BL.build conn (OL.oov_offered cs ps dict) OL.no_fallback (List.length cs) = Some (Lt, (r, i, c)) ->
+      (exists p, BO.chainP (BO.Offered (OL.oov_offered cs ps dict) OL.no_fallback) 0 (List.length cs) p
+                 /\ L.path_cost conn p = c) /\
+      (forall p, BO.chainP (BO.Offered (OL.oov_offered cs ps dict) OL.no_fallback) 0 (List.length cs) p ->
+                 (c <= L.path_cost conn p)%Z).
+Proof. exact (OL.build_optimal_oov fact_continuity_forward fact_regex_ignores_empty_match). Qed.
+Print Assumptions C13_build_optimal_oov.
+
+(* C03 instantiated: with the Simple provider as fallback (and no provider failing) the lattice gets connected, whatever
+   the dictionary and the other providers offer *)
+Theorem C13_lattice_total_oov :
+  forall cs ps (dict : nat -> list node) o,
+    (forall p m, In m (dict p) -> cand_wf (List.length cs) p m) ->
+    (forall q, In q ps -> provider_oracle_ok q (List.length cs)) ->
+    fallback_of ps = Some (PSimple o) ->
+    (forall p, (p < List.length cs)%nat -> exists st, normal_pass (mk_ctx cs) ps p (dict p) = ROk st) ->
+    forall conn : N -> N -> Z,
+      exists Lt e, BL.build conn (OL.oov_offered cs ps dict) OL.no_fallback (List.length cs) = Some (Lt, e).
+Proof. exact (OL.lattice_total_oov fact_continuity_forward fact_regex_ignores_empty_match). Qed.
+Print Assumptions C13_lattice_total_oov.
+
+(* ------------------------------------------------------------------ OOV morphemes of the result *)
+(* an OOV node of the best path (word id = WordId::oov(pos), pos a u16) is reported as: is_oov, dictionary -1, part of
+   speech pos, surface = the original text of its range, and the normalised text of its range as normalized, dictionary
+   and reading form *)
+Theorem C13_oov_morpheme_fields :
+  forall orig norm pos b e,
+    pos < 65536 ->
+    oov_morpheme orig norm (wid_oov pos) b e =
+    mkMV true (-1)%Z pos (slice orig b e) (slice norm b e) (slice norm b e) (slice norm b e).
+Proof.
+  exact (oov_morpheme_fields_generic fact_word_id_dic_shift fact_word_mask fact_oov_dic_id fact_oov_info_fields
+                                     fact_form_fallbacks fact_oov_dictionary_id).
+Qed.
+Print Assumptions C13_oov_morpheme_fields.
+
+(* and a dictionary word (dictionaries 0..14) is never taken for an OOV one and reports its dictionary *)
+Theorem C13_dictionary_word_not_oov :
+  forall dic word, dic < 15 ->
+    wid_is_oov (wid_new dic word) = false /\ dictionary_id (wid_new dic word) = Z.of_N dic.
+Proof. exact (dict_wid_not_oov fact_word_id_dic_shift fact_word_mask fact_oov_dic_id). Qed.
+Print Assumptions C13_dictionary_word_not_oov.
